@@ -148,7 +148,28 @@ func mutateSecondHello(mut string, ch1, ch2 []byte, ver string, recSeq uint64) (
 			return true
 		}
 	}
+	plain := func(ctype byte, body []byte) ([]byte, bool) {
+		rec := []byte{ctype, 0xfe, 0xfd, 0, 0, 0, 0, 0, 0, 0, 0, byte(len(body) >> 8), byte(len(body))}
+		for b := 0; b < 6; b++ {
+			rec[10-b] = byte(recSeq >> (8 * b)) //nolint:gosec
+		}
+
+		return append(rec, body...), true
+	}
 	switch mut {
+	// stimuli that are not a ClientHello at all: a cookie request must never answer them
+	case "stim-emptyack":
+		return plain(26, []byte{0, 0})
+	case "stim-ack":
+		return plain(26, []byte{0, 16, 0, 0, 0, 0, 0, 0, 0, 0, 0, 0, 0, 0, 0, 0, 0, 1})
+	case "stim-ccs":
+		return plain(20, []byte{1})
+	case "stim-warning-alert":
+		return plain(21, []byte{1, 90})
+	case "stim-hs-garbage": // a handshake record that is not a ClientHello (unknown type, empty body)
+		return plain(22, []byte{99, 0, 0, 0, 0, 7, 0, 0, 0, 0, 0, 0})
+	case "stim-serverhello-echo": // the server's own cookie request reflected back at it
+		return nil, false
 	case "absent": // the first hello again, fresh record number
 		return rebuildHello(ch1, recSeq, func(*handshake.MessageClientHello) bool { return true })
 	case "genuine":
@@ -304,6 +325,16 @@ func runCookieCase(idx int, cc *cookieCase) cookieResult { //nolint:cyclop,gocog
 		}
 	}
 	collect(&res.Emitted)
+	stim := len(cc.Mut) > 5 && cc.Mut[:5] == "stim-"
+	cookieReqs := 0
+	for _, e := range res.Emitted {
+		if e == "HelloVerifyRequest" || e == "HelloRetryRequest" {
+			cookieReqs++
+		}
+	}
+	if stim && res.Applied && cookieReqs > 1 {
+		res.Violations = append(res.Violations, fmt.Sprintf("server sent %d cookie requests although only one ClientHello arrived (stimulus %s x%d)", cookieReqs, cc.Mut, cc.Reps))
+	}
 	for _, e := range res.Emitted {
 		switch {
 		case e == "HelloVerifyRequest" || e == "HelloRetryRequest":
